@@ -25,4 +25,5 @@ VARIANTS = [
     V("N-min-1-q", A, "    return min(intersection / union, 1.0)", "    return min(1.0, intersection / union)", None),
     V("N-union-reordered", A, "    union = shp1.area + shp2.area - intersection\n", "    union = shp2.area - intersection + shp1.area\n", None),
     V("N-keyword-buffers", A, "    geometry1 = _prepare_geometry(geometry1, time_buffer, freq_buffer)\n", "    geometry1 = _prepare_geometry(geometry1, freq_buffer=freq_buffer, time_buffer=time_buffer)\n", None),
+    V("N-zero-union-truthiness", "src/soundevent/evaluation/affinity.py", "    if union == 0:\n        return 0\n\n    return min(intersection / union, 1.0)", "    if not union:\n        return 0\n\n    ratio = intersection / union\n    return 1.0 if ratio > 1.0 else ratio", None),
 ]
